@@ -18,6 +18,8 @@ Decided:
       error exactly when, by least-fixpoint reachability computed in the checker, some unskipped step is unreachable
       from an input, some unskipped event-producing step cannot reach an output event, or a non-output event has no
       consumer.
+Also (R2) every @catch_error handler — also one that owns no step — seeds the reachability pass: `_collect_catch_error_handlers` and the
+`catch_error_steps=` argument of validate_graph are evaluated from their ASTs on four small step tables.
 Not decided: resource validation, step-signature validation, graphs outside the enumerated bound.
 """
 
@@ -457,6 +459,10 @@ def _r2(chk, repo, m) -> None:
     vw_skip = passed_x.id if ok else None
     chk.ob("C23.R2", "the caller's skip set reaches validate_graph unchanged", ok, m=mv, node=vg_call, fn=vw, instance="skip-flow:validate_graph",
            reason=f"validate_graph receives `{ast.unparse(passed) if passed is not None else 'nothing'}` as its skip set, not the parameter of _validate_workflow")
+    # ---- (d') every @catch_error handler is an entry point of the reachability pass, also one that currently owns no step (a
+    # wildcard shadowed by scoped handlers, `for_steps=[]`): decided by evaluating `_collect_catch_error_handlers` and the
+    # `catch_error_steps=` argument from their ASTs on four small step tables
+    _catch_error_seed_rule(chk, repo, mv, vw, vg_call)
     mw, wv = repo.func(f"{WF}:Workflow._validate")
     wcfg = CFG(wv)
     vw_call = next((x for x in walk_shallow(wv) if isinstance(x, ast.Call) and last(call_name(x)) == "_validate_workflow"), None)
@@ -938,6 +944,43 @@ def _r4(chk, m, thorough: bool = False) -> None:
 # ------------------------------------------------------------------------------------------- entry
 
 
+
+def _catch_error_seed_rule(chk, repo, mv, vw, vg_call) -> None:
+    cc = mv.functions.get("_collect_catch_error_handlers")
+    seeds = kwarg(vg_call, "catch_error_steps")
+    coll = next((s_ for s_ in walk_shallow(vw) if isinstance(s_, ast.Assign) and isinstance(s_.value, ast.Call) and last(call_name(s_.value)) == "_collect_catch_error_handlers"), None)
+    if cc is None or seeds is None or coll is None:
+        raise AnchorError("C23.R2: cannot bind _collect_catch_error_handlers / the catch_error_steps argument of validate_graph in _validate_workflow")
+
+    def step(role="step", for_steps=None, mr=1):
+        return Record("StepConfig", role=role, catch_error_max_recoveries=mr, catch_error_for_steps=for_steps)
+
+    tables = {
+        "wildcard shadowed by scoped handlers": {"a": step(), "b": step(), "h_a": step("catch_error", ["a"]), "h_b": step("catch_error", ["b"]), "h_any": step("catch_error", None)},
+        "handler with for_steps=[]": {"a": step(), "h_none": step("catch_error", []), "h_any": step("catch_error", None)},
+        "plain wildcard": {"a": step(), "b": step(), "h_any": step("catch_error", None)},
+        "no handler": {"a": step(), "b": step()},
+    }
+    hooks = {"CatchErrorHandler": lambda **kw: Record("CatchErrorHandler", **kw), "validate_catch_error_handlers": lambda *a, **k: []}
+    bad, rows = "", []
+    try:
+        for label, steps in tables.items():
+            got = Interp({}, hooks).call_function(cc, {cc.args.args[0].arg: steps})
+            env: dict = {}
+            Interp({}, hooks).assign(coll.targets[0], got, env)
+            # locals of _validate_workflow between the collection and the call (a renamed / pre-computed seed list)
+            expr = expand(seeds, vg_call, depth=3)
+            val = Interp(env, hooks).eval(expr, dict(env))
+            names = sorted(set(val))
+            want = sorted(n for n, c in steps.items() if c.role == "catch_error")
+            rows.append({"table": label, "seeds": names})
+            if names != want:
+                bad = bad or f"{label}: reachability is seeded with {names}, the @catch_error handlers are {want} — a handler that owns no step (and what only it reaches) is reported unreachable, a well-formed workflow is rejected"
+    except (Unsupported, Raised, TypeError) as e:
+        raise AnchorError(f"C23.R2: cannot evaluate the catch_error seed flow: {e}")
+    chk.extra["catch_error_seed_tables"] = rows
+    chk.ob("C23.R2", "every @catch_error handler (also one owning no step) seeds the reachability pass of validate_graph", not bad, m=mv, node=vg_call, fn=vw, instance="seed-flow:catch-error-handlers", reason=bad)
+
 def run(chk) -> None:
     repo = chk.repo
     m = repo.module(VAL)
@@ -988,6 +1031,9 @@ _HITL_RET = _hitl_return_text()
 _HITL_PINNED = "    return (\n        InputRequiredEvent in produced_events or HumanResponseEvent in consumed_events\n    )\n"
 
 TWINS = [
+    Twin("reachability seeded only with handlers that own a step", _V, "        catch_error_steps=list(catch_error_handlers.keys()),\n", "        catch_error_steps=sorted(set(handler_for_step.values())),\n", "C23.R2"),
+    Twin("benign: seed list computed beforehand from the handler table", _V, "    graph_errors = validate_graph(\n        steps=steps,\n        start_event_class=start_event_class,\n        skip_checks=skip_graph_checks,\n        catch_error_steps=list(catch_error_handlers.keys()),\n",
+         "    handler_names = sorted(h.step_name for h in catch_error_handlers.values())\n    graph_errors = validate_graph(\n        steps=steps,\n        start_event_class=start_event_class,\n        skip_checks=skip_graph_checks,\n        catch_error_steps=handler_names,\n", None),
     # R4
     Twin("dead-end check only over reachable steps", _V, "            for s in graph.step_names\n            if any(isinstance(t, type) for t in graph.outgoing.get(s, []))", "            for s in graph.step_names & graph.forward_reachable\n            if any(isinstance(t, type) for t in graph.outgoing.get(s, []))", "C23.R4"),
     Twin("per-step reachability skip exempts every step", _V, "            for name in graph.step_names - step_skip\n            if name not in graph.forward_reachable", "            for name in graph.step_names - step_skip\n            if name not in graph.forward_reachable and not step_skip", "C23.R4"),
